@@ -40,14 +40,21 @@ def with_alarm(seconds, fn):
     return r
 
 
-def outcome(fn, seconds=15):
-    """('ok', value) | ('exc', 'module.Class', message) | ('timeout',)"""
-    try:
-        return ("ok", with_alarm(seconds, fn))
-    except CallTimeout:
-        return ("timeout",)
-    except BaseException as e:  # noqa
-        return ("exc", type(e).__module__ + "." + type(e).__name__, str(e)[:300])
+def outcome(fn, seconds=15, retry=None):
+    """('ok', value) | ('exc', 'module.Class', message) | ('timeout',)
+    A timeout under the default limits is reported only if it repeats with four times the limit: on a loaded machine (thorough tiers, mutation matrix, other checks) a forked worker
+    occasionally stalls for seconds, and most callers read a non-ok outcome as a failure of the code under test. Callers that probe for hangs on purpose pass a short limit (< 10 s)
+    and get no retry."""
+    if retry is None:
+        retry = seconds >= 10
+    for attempt, limit in enumerate([seconds, 4 * seconds] if retry else [seconds]):
+        try:
+            return ("ok", with_alarm(limit, fn))
+        except CallTimeout:
+            continue
+        except BaseException as e:  # noqa
+            return ("exc", type(e).__module__ + "." + type(e).__name__, str(e)[:300])
+    return ("timeout",)
 
 
 def call_einx(op, desc, tensors, kwargs, backend=None, seconds=15):
@@ -57,9 +64,9 @@ def call_einx(op, desc, tensors, kwargs, backend=None, seconds=15):
     kw = dict(kwargs)
     if backend is not None:
         kw["backend"] = backend
-    o = outcome(lambda: f(desc, *tensors, **kw), seconds)
-    if o[0] == "timeout":  # one retry: a timeout is only reported if it repeats (forked workers under load occasionally stall)
-        o = outcome(lambda: f(desc, *[t.copy() if hasattr(t, "copy") else t for t in tensors], **kw), seconds)
+    o = outcome(lambda: f(desc, *tensors, **kw), seconds, retry=False)   # the caller's own tensor objects (C09 snapshots them)
+    if o[0] == "timeout":  # one retry on copies with four times the limit: a timeout is only reported if it repeats (forked workers under load occasionally stall)
+        o = outcome(lambda: f(desc, *[t.copy() if hasattr(t, "copy") else t for t in tensors], **kw), 4 * seconds, retry=False)
     return o
 
 
